@@ -74,6 +74,16 @@ func readReplayForReplication(ReplayC <-chan *raftconn.Commit, client metaclient
 	}
 }
 
+// startCommitLoop starts the loop that applies the entries raft commits from now on. It applies
+// nothing before replayDone is closed: the entries the start-up replay re-applies are older, and
+// a row they write must not land on top of a newer write of the same point.
+func startCommitLoop(node *raftconn.RaftNode, client metaclient.MetaClient, storage StorageService, replayDone <-chan struct{}) {
+	go func() {
+		<-replayDone
+		readCommitFromRaft(node, client, storage)
+	}()
+}
+
 func readCommitFromRaft(node *raftconn.RaftNode, client metaclient.MetaClient, storage StorageService) {
 	commitC := node.GetCommitC()
 	for commit := range commitC {
